@@ -603,6 +603,8 @@ def deferred_deadline_inv(crate):
         di2 = w2.fields[(None, crate.field_index("ObserverWorker", "deferred_index_dump_info"))]
         pending = ex.get_discr(o, di2).t == BV64(1)
         armed = ex.get_discr(o, nd2).t == BV64(1)
+        if not P.prove(ex, res, o, isok, "never returns Err (run() panics on an Err of the deferred processing)"):
+            return False
         if not P.prove(ex, res, o, z3.Implies(z3.And(isok, pending), armed), "a registered deferred dump always has a deadline"):
             res.replay = {"kind": "native", "test": "findings/c13_deferred_dump_demo.rs deferred_dump_registered_while_dump_is_running_completes"}
             return False
